@@ -14,7 +14,7 @@ import ast
 from typing import Any, Iterable
 
 from ..db import ClassInfo, FunctionInfo, dotted, mangle, own_nodes
-from ..exc import CANCELLED, INT_DIGITS
+from ..exc import CANCELLED, CODEC_ERROR, INT_DIGITS
 from ..flow import Interp, call_of
 from .base import RuleAnalysis
 
@@ -60,7 +60,7 @@ RAISE_TABLE: dict[str, list[str]] = {
 DECOMPRESS_PROTOCOL = "easynetwork.serializers.wrapper.compressor:DecompressorInterface.decompress"
 
 UNIVERSE = (
-    INT_DIGITS, "UnicodeDecodeError", "json.decoder.JSONDecodeError", "RecursionError", "struct.error", "binascii.Error", "zlib.error",
+    INT_DIGITS, CODEC_ERROR, "UnicodeDecodeError", "json.decoder.JSONDecodeError", "RecursionError", "struct.error", "binascii.Error", "zlib.error",
     "EOFError", "BufferError", LIMIT, INCR, DESER, STREAMPARSE, DGRAMPARSE, CONVERT, "StopIteration", "StopAsyncIteration",
     "NotImplementedError", "RuntimeError", "TypeError", "ValueError", "AssertionError", "OSError", "Exception",
 )
@@ -252,12 +252,16 @@ class EscapeAnalysis(RuleAnalysis):
         # str(data, encoding, errors)
         if isinstance(f, ast.Name) and f.id == "str" and len(call.args) >= 2:
             self.external_sites.append((call, "builtins.str#decode"))
-            return RAISE_TABLE["builtins.str#decode"]
+            # a codec chosen by configuration (not a literal) may be one that raises a plain UnicodeError
+            extra = [] if isinstance(call.args[1], ast.Constant) else [CODEC_ERROR]
+            return RAISE_TABLE["builtins.str#decode"] + extra
         if isinstance(f, ast.Attribute) and f.attr == "decode" and not isinstance(f.value, ast.Call) and not self._is_repo_recv(f.value):
             ts = self.typer.expr_types(fn, f.value)
             if not ts or all(t.kind == "ext" and str(t.ref).split(".")[-1] in ("bytes", "bytearray", "memoryview", "str") for t in ts):
                 self.external_sites.append((call, "bytes.decode"))
-                return RAISE_TABLE["bytes.decode"]
+                enc = call.args[0] if call.args else next((k.value for k in call.keywords if k.arg == "encoding"), None)
+                extra = [CODEC_ERROR] if enc is not None and not isinstance(enc, ast.Constant) else []
+                return RAISE_TABLE["bytes.decode"] + extra
         out: list[str] = []
         # calls of callable parameters bound to a method of the receiver (generic wrappers)
         if isinstance(f, ast.Name) and f.id in self.bindings:
